@@ -41,19 +41,20 @@ type WriteRec struct {
 type FaultPlan func(c *Conn, idx, n int) []int
 
 type Conn struct {
-	Name       string
-	rd, wr     *half
-	local      net.Addr
-	remote     net.Addr
-	rdl, wdl   time.Time
-	rdlTimer   *vsched.Timer
-	closed     bool
-	CloseErr   error // returned by Close (models a failing TLS close-notify)
-	Faults     FaultPlan
-	BlockWrite bool // fault alternative: block until the write deadline, then time out
-	ShortReads bool // enumerate short reads (1 byte) as a fault alternative
-	nwrites    int
-	Log        *[]WriteRec // shared log of writes (client->server side only, typically)
+	Name         string
+	rd, wr       *half
+	local        net.Addr
+	remote       net.Addr
+	rdl, wdl     time.Time
+	rdlTimer     *vsched.Timer
+	closed       bool
+	CloseErr     error // returned by Close (models a failing TLS close-notify)
+	Faults       FaultPlan
+	BlockWrite   bool // fault alternative: block until the write deadline, then time out
+	BlockPartial bool // with BlockWrite: the blocked write has already passed on the first half of its bytes (full socket buffer)
+	ShortReads   bool // enumerate short reads (1 byte) as a fault alternative
+	nwrites      int
+	Log          *[]WriteRec // shared log of writes (client->server side only, typically)
 	// Sink, if set on a conn, receives every chunk the PEER writes, synchronously in
 	// the writer's thread right after the write (no reader thread, no scheduling
 	// point): a zero-latency network in that direction. The chunk is not queued.
@@ -167,13 +168,28 @@ func (c *Conn) Write(p []byte) (int, error) {
 				c.failed = true
 			default:
 				// block until the write deadline
+				n = 0
+				werr = &timeoutErr{"write"}
+				c.failed = true
+				if c.BlockPartial && len(p) >= 2 {
+					// the first half is on its way before the write blocks: log and deliver it now, so that
+					// whatever other threads write meanwhile comes after it in the byte stream
+					n = len(p) / 2
+					c.record(p[:n], len(p), werr)
+					c.wr.total += n
+					if c.peer != nil && c.peer.Sink != nil {
+						c.peer.Sink(append([]byte(nil), p[:n]...))
+					} else {
+						c.wr.buf = append(c.wr.buf, p[:n]...)
+					}
+				}
 				d := c.wdl.Sub(vsched.Now())
 				if d > 0 {
 					vsched.Sleep(d)
 				}
-				n = 0
-				werr = &timeoutErr{"write"}
-				c.failed = true
+				if n > 0 {
+					return n, werr
+				}
 			}
 		}
 	}
